@@ -7,7 +7,7 @@
    exception: IndexError, struct.error, AssertionError, ValueError, UnicodeError; exhausted
    fuel = non-termination); for parser computations Val | Exn (XLib e) | Exn (XInt e). *)
 From DV Require Import Base.Prelude Model.NameM Model.ParserM Model.UntrustedM.
-From DV Require Model.TokM.
+From DV Require Model.TokM Model.SchemaM Proofs.UntrustedSchema.
 From DV Require Import Proofs.NameValid Proofs.ParserSafe Proofs.ParserProg
                        Proofs.UntrustedSafe Proofs.UntrustedDec Proofs.UntrustedText.
 Open Scope Z_scope.
@@ -116,6 +116,41 @@ Theorem per_type_instance : forall (wire : list Z), bytes_ok wire ->
   forall origin c t, api_disciplined wire (dec_rdata wire origin c t).
 Proof. exact dec_rdata_disciplined. Qed.
 Print Assumptions per_type_instance.
+
+(* EVERY record type: the generic schema decoder of C02 (Model/SchemaM.v: Parser + restrict_to +
+   cls.from_wire_parser + constructor under the wrapper; tied to the ~60 regular per-type
+   parsers by C02's translator and correspondence).  On arbitrary octets, any origin: a record
+   that passed the constructor and consumed exactly rdlen, or a FormError-family error. *)
+Theorem no_internal_rdata_wire_schema : forall (o : option name) (fs : list SchemaM.fld) (ck : SchemaM.check)
+         (wire : list Z) (cur rdlen : nat),
+  bytes_ok wire -> SchemaM.schema_wf fs = true ->
+  match SchemaM.decode_rdata o fs ck wire cur rdlen with
+  | Ok vs =>
+      SchemaM.validate fs ck vs = true /\ (cur + rdlen <= length wire)%nat /\
+      SchemaM.dec_fields wire o fs (cur + rdlen) cur = Ok (vs, (cur + rdlen)%nat)
+  | Lib e => is_form e = true
+  | Internal _ => False
+  end.
+Proof. exact UntrustedSchema.schema_from_wire_family. Qed.
+Print Assumptions no_internal_rdata_wire_schema.
+
+(* ... for whatever get_rdata_class(rdclass, rdtype) resolves to in a table that passes entry_ok
+   (instantiated on the table generated from dns/rdtypes/** on every run: generated obligation
+   no_internal_rdata_wire_all_types), and "every value returned can be rendered to wire again":
+   the accepted record's own to_wire exists and decodes to the same record. *)
+Theorem no_internal_rdata_wire_table : forall (tbl : list SchemaM.entry) (c t : Z) w r ck
+         (wire : list Z) (cur rdlen : nat),
+  bytes_ok wire -> forallb SchemaM.entry_ok tbl = true -> SchemaM.lookup tbl c t = SchemaM.CSchema w r ck ->
+  match SchemaM.decode_rdata None (map fst r) ck wire cur rdlen with
+  | Ok vs =>
+      (cur + rdlen <= length wire)%nat /\
+      exists w', SchemaM.encode_rdata None (map fst w) ck vs = Ok w' /\
+                 SchemaM.decode_rdata None (map fst r) ck w' 0 (length w') = Ok vs
+  | Lib x => is_form x = true
+  | Internal _ => False
+  end.
+Proof. exact UntrustedSchema.table_from_wire_family. Qed.
+Print Assumptions no_internal_rdata_wire_table.
 
 (* ================= messages ================= *)
 
